@@ -65,12 +65,16 @@ class Controller:
             return local
 
         visit_code = sys.modules['prettyprinter.prettyprinter']._run_pretty.__code__
+        L = sys.modules['prettyprinter.layout']
+        layout_codes = {f.__code__ for f in (L.best_layout, L.fast_fitting_predicate, L.smart_fitting_predicate)}
 
         def glob(frame, event, arg):
             if event != 'call':
                 return None
             if self.region == 'visit':
                 return local if frame.f_code is visit_code else None
+            if self.region == 'layout':
+                return local if frame.f_code in layout_codes else None
             if frame.f_code is code or (
                     frame.f_code.co_name == 'decorator' and frame.f_code.co_filename == rp_file):
                 return local
@@ -151,6 +155,30 @@ def run_shared(nthreads, schedule, cfgs=None):
     ref = [pformat(v, **c) for v, c in zip(vals, cfgs)]
     ctl = Controller(nthreads, region='visit')
     fns = [(lambda v=v, c=c: pformat(v, **c)) for v, c in zip(vals, cfgs)]
+    results, used = ctl.run(fns, schedule)
+    return results, ref
+
+
+def layout_values(nthreads):
+    """values whose layouts need many fits-on-one-line decisions, some answered yes, some no"""
+    vals = []
+    for i in range(nthreads):
+        if i % 2 == 0:
+            vals.append([['a' * 7, i], {'key': ['b' * 30, 'c' * 30, 'd' * 30]}, (1, 2, 3), ['x', ['y', ['z' * 25] * 3]]])
+        else:
+            vals.append({'k%d' % j: [j, ('w' * (5 + 9 * j),) * 2] for j in range(5)})
+    return vals
+
+
+def run_layout(nthreads, schedule, widths=None):
+    """threads lay out different values, gated on the line events of the layout algorithm and its
+    fitting predicates -> (results, sequential reference texts)"""
+    from prettyprinter import pformat
+    vals = layout_values(nthreads)
+    widths = widths or [40] * nthreads
+    ref = [pformat(v, width=w) for v, w in zip(vals, widths)]
+    ctl = Controller(nthreads, region='layout')
+    fns = [(lambda v=v, w=w: pformat(v, width=w)) for v, w in zip(vals, widths)]
     results, used = ctl.run(fns, schedule)
     return results, ref
 
